@@ -21,6 +21,17 @@ open RsslVerif.Lemmas.FixpointPlace
 @[simp] theorem mostSig_idem3 (l : Scalar) : mostSigScalar l l = l := by
   cases l <;> decide
 
+/-! since fix c05bffa the element kind of `?:` is remapped (`IntLiteral` → `int`, `FloatLiteral` → `float`) unless both
+    arms are scalars; the remapped kind is again stable when an arm is replaced by the common type -/
+@[simp] theorem ternRemap_idem1 (l r : Scalar) :
+    litTernRemap (mostSigScalar (litTernRemap (mostSigScalar l r)) r) = litTernRemap (mostSigScalar l r) := by
+  cases l <;> cases r <;> decide
+@[simp] theorem ternRemap_idem2 (l r : Scalar) :
+    litTernRemap (mostSigScalar l (litTernRemap (mostSigScalar l r))) = litTernRemap (mostSigScalar l r) := by
+  cases l <;> cases r <;> decide
+@[simp] theorem ternRemap_idem3 (l : Scalar) : litTernRemap (litTernRemap l) = litTernRemap l := by
+  cases l <;> decide
+
 def vdim (n1 n2 : Nat) : Nat := if n1 = 1 ∨ n2 = 1 then max n1 n2 else min n1 n2
 
 theorem vdim_idem (n1 n2 : Nat) :
@@ -30,10 +41,11 @@ theorem vdim_idem (n1 n2 : Nat) :
 
 theorem ternTargets_vv (s1 s2 : Scalar) (n1 n2 : Nat) :
     ternTargets (.vector s1 n1) (.vector s2 n2) =
-      .ok (.vector (mostSigScalar s1 s2) (vdim n1 n2), .vector (mostSigScalar s1 s2) (vdim n1 n2)) := by
+      .ok (.vector (litTernRemap (mostSigScalar s1 s2)) (vdim n1 n2),
+           .vector (litTernRemap (mostSigScalar s1 s2)) (vdim n1 n2)) := by
   unfold vdim
   by_cases hc : n1 = 1 ∨ n2 = 1 <;>
-    simp [ternTargets, Layer.extractScalar, mostSignificantDimension, Layer.ofDim, hc]
+    simp [ternTargets, ternScalar, Layer.extractScalar, mostSignificantDimension, Layer.ofDim, hc]
 
 theorem ternTargets_stable {la lb lt la0 lb0 : Layer} (h : ternTargets la lb = .ok (lt, lt))
     (ha : la0 = la ∨ la0 = lt) (hb : lb0 = lb ∨ lb0 = lt) : ternTargets la0 lb0 = .ok (lt, lt) := by
@@ -45,33 +57,33 @@ theorem ternTargets_stable {la lb lt la0 lb0 : Layer} (h : ternTargets la lb = .
     obtain ⟨d1, d2, d3⟩ := vdim_idem n1 n2
     rcases ha with rfl | rfl <;> rcases hb with rfl | rfl <;> rw [ternTargets_vv] <;> simp [*]
   all_goals
-    simp [ternTargets, Layer.extractScalar, mostSignificantDimension, Layer.transformScalar, Layer.ofDim] at h
+    simp [ternTargets, ternScalar, Layer.extractScalar, mostSignificantDimension, Layer.transformScalar, Layer.ofDim] at h
   all_goals (try (obtain ⟨h1, h2⟩ := h; subst h1; first | (cases h2; done) | skip))
   all_goals (try subst h)
   all_goals (try (rcases ha with rfl | rfl <;> rcases hb with rfl | rfl <;>
-    simp [ternTargets, Layer.extractScalar, mostSignificantDimension, Layer.transformScalar, Layer.ofDim] <;> done))
+    simp [ternTargets, ternScalar, Layer.extractScalar, mostSignificantDimension, Layer.transformScalar, Layer.ofDim] <;> done))
   · injection h2 with h2; subst h2
     rcases ha with rfl | rfl <;> rcases hb with rfl | rfl <;>
-      simp [ternTargets, Layer.extractScalar, mostSignificantDimension]
+      simp [ternTargets, ternScalar, Layer.extractScalar, mostSignificantDimension]
   · injection h2 with h2; subst h2
     rcases ha with rfl | rfl <;> rcases hb with rfl | rfl <;>
-      simp [ternTargets, Layer.extractScalar, mostSignificantDimension]
+      simp [ternTargets, ternScalar, Layer.extractScalar, mostSignificantDimension]
 
 theorem ternTargets_floatLit_left (lb x : Layer) :
     ternTargets (.scalar .floatLiteral) lb ≠ .ok (.scalar .int32, x) := by
   cases lb with
-  | scalar s => cases s <;> simp +decide [ternTargets, Layer.extractScalar, mostSignificantDimension, Layer.ofDim, mostSigScalar]
-  | vector s n => cases s <;> simp +decide [ternTargets, Layer.extractScalar, mostSignificantDimension, Layer.ofDim, mostSigScalar]
-  | matrix s p q => cases s <;> simp +decide [ternTargets, Layer.extractScalar, mostSignificantDimension, Layer.transformScalar, mostSigScalar]
+  | scalar s => cases s <;> simp +decide [ternTargets, ternScalar, litTernRemap, Layer.extractScalar, mostSignificantDimension, Layer.ofDim, mostSigScalar]
+  | vector s n => cases s <;> simp +decide [ternTargets, ternScalar, litTernRemap, Layer.extractScalar, mostSignificantDimension, Layer.ofDim, mostSigScalar]
+  | matrix s p q => cases s <;> simp +decide [ternTargets, ternScalar, litTernRemap, Layer.extractScalar, mostSignificantDimension, Layer.transformScalar, mostSigScalar]
   | enum i => simp [ternTargets, Layer.extractScalar, mostSignificantDimension]
   | other i => simp [ternTargets, Layer.extractScalar, mostSignificantDimension]
 
 theorem ternTargets_floatLit_right (la x : Layer) :
     ternTargets la (.scalar .floatLiteral) ≠ .ok (x, .scalar .int32) := by
   cases la with
-  | scalar s => cases s <;> simp +decide [ternTargets, Layer.extractScalar, mostSignificantDimension, Layer.ofDim, mostSigScalar]
-  | vector s n => cases s <;> simp +decide [ternTargets, Layer.extractScalar, mostSignificantDimension, Layer.ofDim, mostSigScalar]
-  | matrix s p q => cases s <;> simp +decide [ternTargets, Layer.extractScalar, mostSignificantDimension, Layer.transformScalar, mostSigScalar]
+  | scalar s => cases s <;> simp +decide [ternTargets, ternScalar, litTernRemap, Layer.extractScalar, mostSignificantDimension, Layer.ofDim, mostSigScalar]
+  | vector s n => cases s <;> simp +decide [ternTargets, ternScalar, litTernRemap, Layer.extractScalar, mostSignificantDimension, Layer.ofDim, mostSigScalar]
+  | matrix s p q => cases s <;> simp +decide [ternTargets, ternScalar, litTernRemap, Layer.extractScalar, mostSignificantDimension, Layer.transformScalar, mostSigScalar]
   | enum i => simp [ternTargets, Layer.extractScalar, mostSignificantDimension]
   | other i => simp [ternTargets, Layer.extractScalar, mostSignificantDimension]
 
